@@ -215,12 +215,39 @@ fn cmd_check(args: &[String]) -> i32 {
             continue; // enough replay files; the count is still reported
         }
         let f = &fs[0];
-        let (min_sched, tries) = runner::minimise(&f.schedule, &id, &f.v.oracle, 300);
-        let path = runner::write_replay(&replay_dir, &id, seed, tier, f, &min_sched, true, gi);
-        // confirm in a fresh process
         let exe = std::env::current_exe().unwrap();
-        let out = std::process::Command::new(exe).arg("replay").arg(&path).output();
-        let ok = out.as_ref().map(|o| o.status.code() == Some(1)).unwrap_or(false);
+        let confirm = |path: &std::path::Path| -> bool {
+            let out = std::process::Command::new(&exe).arg("replay").arg(path).output();
+            out.as_ref().map(|o| o.status.code() == Some(1)).unwrap_or(false)
+        };
+        // does the violating world reproduce on its own (fresh process)?
+        let raw_path = runner::write_replay(&replay_dir, &id, seed, tier, f, &f.schedule, false, gi);
+        let (min_sched, tries, path) = if confirm(&raw_path) {
+            let (m, t) = runner::minimise(&f.schedule, &id, &f.v.oracle, 300);
+            let p = runner::write_replay(&replay_dir, &id, seed, tier, f, &m, true, gi);
+            (m, t, p)
+        } else {
+            // it depends on state the library kept from earlier worlds of the same run: replay the
+            // run as a whole (worlds separated by world.reset), then minimise that
+            println!("  note: the violating world alone does not reproduce; replaying run {} as a whole (hidden state across operations)", f.run);
+            match runner::run_level_schedule(def.run, seed, &id, tier, f.run, &f.v.oracle) {
+                Some(full) => {
+                    let (m, t) = runner::minimise(&full, &id, &f.v.oracle, 200);
+                    let p = runner::write_replay(&replay_dir, &id, seed, tier, f, &m, true, gi);
+                    (m, t, p)
+                }
+                None => (f.schedule.clone(), 0, raw_path.clone()),
+            }
+        };
+        let mut ok = confirm(&path);
+        let (min_sched, path) = if !ok && confirm(&raw_path) {
+            // the minimised schedule lost something the violation needs (state across ops that the
+            // in-process minimiser could not see): hand out the unminimised, confirmed schedule
+            ok = true;
+            (f.schedule.clone(), raw_path.clone())
+        } else {
+            (min_sched, path)
+        };
         if !ok {
             println!("HARNESS ERROR: replay of {} did not reproduce the violation in a fresh process", path.display());
             harness_err = true;
